@@ -52,13 +52,17 @@ ND == 8
 NSys == 26
 ASSUME NK = Len(Kinds) /\ ND = Len(DirPaths) /\ NSys = Len(Syscalls)
 NoD == [lo |-> "none", hi |-> "zero", dirp |-> <<>>]
-Static == [b |-> "static", gap |-> FALSE]
+Static == [b |-> "static", gap |-> FALSE, prot |-> "rw"]
 PS(abs, comps, trail) == [abs |-> abs, comps |-> comps, trail |-> trail, pre |-> "", pdir |-> <<>>,
                           pad |-> 0, mem |-> Static]
 
 \* placements of the string in the caller's memory and lengths (see PathWalk.tla)
-Mems == << Static >> \o [ k \in 1..12 |-> [b |-> <<"in", "end", "one", "mid", "last", "nul">>[((k - 1) % 6) + 1], gap |-> k > 6] ]
-NM   == 13
+MemBs == <<"in", "end", "one", "mid", "last", "nul">>
+Mems == << Static >>
+        \o [ k \in 1..24 |-> [b |-> MemBs[((k - 1) % 6) + 1], gap |-> ((k - 1) \div 6) % 2 = 1,
+                              prot |-> IF k > 12 THEN "w" ELSE "rw"] ]
+        \o [ k \in 1..6 |-> [b |-> MemBs[k], gap |-> FALSE, prot |-> "none"] ]
+NM   == 31
 Pads == <<0, 0, 700, 3000>>
 ASSUME NM = Len(Mems)
 Placed(ps, m, pad) == [ps EXCEPT !.mem = Mems[m], !.pad = pad]
@@ -149,8 +153,8 @@ MSys == {"open", "openat", "openat2", "stat", "statx", "readlinkat", "unlinkat",
          "rename", "linkat", "execve"}
 MCases ==
   { Mk("M", 1, r(<<"a">>), sc, 0, IF sc \in OpenFamily THEN {} ELSE AtChoices(sc)[1],
-       DK(1, 1), Placed(Shapes[s], m, pad), DK(2, 1), Placed(Shapes[5 - s], ((m + 4) % NM) + 1, 3000 - pad)) :
-      sc \in MSys, m \in 2..NM, s \in {2, 3}, pad \in {0, 3000} }
+       DK(1, 1), Placed(Shapes[sp[1]], m, sp[2]), DK(2, 1), Placed(Shapes[5 - sp[1]], ((m + 4) % NM) + 1, 3000 - sp[2])) :
+      sc \in MSys, m \in 2..NM, sp \in {<<2, 0>>, <<3, 3000>>} }
 
 \* ---- N: name classes (see Skeleton) as components of the string, of the cwd, of the directory behind a
 \* descriptor and of a procfs alias
